@@ -1,0 +1,23 @@
+//! Verification hooks. Compiled only with the `verif-hooks` cargo feature (off by default).
+//!
+//! A single process-wide hook can be installed; the library calls [point] with a static
+//! label at section boundaries of module generation, around the external formatter and at
+//! the top of the recursive walks. With no hook installed a point is one relaxed load.
+use std::sync::atomic::{AtomicUsize, Ordering};
+
+static HOOK: AtomicUsize = AtomicUsize::new(0);
+
+/// Installs (or with `None` removes) the process-wide hook.
+pub fn set_hook(hook: Option<fn(&'static str)>) {
+    HOOK.store(hook.map(|f| f as usize).unwrap_or(0), Ordering::SeqCst);
+}
+
+#[inline]
+pub(crate) fn point(label: &'static str) {
+    let raw = HOOK.load(Ordering::Relaxed);
+    if raw != 0 {
+        // SAFETY: the only non-zero values ever stored are `fn(&'static str)` pointers.
+        let hook: fn(&'static str) = unsafe { std::mem::transmute(raw) };
+        hook(label);
+    }
+}
